@@ -2,7 +2,7 @@
    Statements only: each theorem is closed by [exact <lemma>]; proofs live in
    Proofs/Session.v. The user state machine is arbitrary: every statement is
    quantified over its state type S, its result type and its Update function. *)
-From DB Require Import Base.Bytes Gen.GenC05 Model.Session Proofs.Session Model.ClientSession Proofs.ClientSession.
+From DB Require Import Base.Bytes Gen.GenC05 Model.Session Proofs.Session Model.ClientSession Proofs.ClientSession Proofs.SessionSource.
 From Coq Require Import Sorted.
 Open Scope N_scope.
 
@@ -236,6 +236,16 @@ Theorem source_tie :
   0 < lru_max_session_count.
 Proof. exact source_tie_proved. Qed.
 Print Assumptions source_tie.
+
+(* tie G: the session table is a function of the applied entries because the
+   order-refreshing lookups of the LRU are called from the apply path (and the
+   order-preserving save walk) only; the caller lists are regenerated from
+   internal/rsm on every run (see Proofs/SessionSource.v for the expected lists) *)
+Theorem lru_refresh_only_on_apply_path :
+  (src_lru_get_callers, src_get_session_callers, src_session_lookup_callers, src_session_save_callers)
+  = expected_refresh_callers.
+Proof. exact lru_refresh_only_on_apply_path_proved. Qed.
+Print Assumptions lru_refresh_only_on_apply_path.
 
 (* client side (client.Session): after PrepareForPropose, any interleaving of
    proposing/retrying and ProposalCompleted never panics and emits entries with
